@@ -52,6 +52,29 @@ from .cyc import _Top  # noqa: E402
 # =====================================================================================================
 
 
+def module_items(spec):
+    """Definition order: modules in increasing order; inside a module the bodies in spec order, where the first body
+    that belongs to a top-level structure (spec["tops"]) pulls in the whole structure.  Yields ("body", body) and
+    ("top", top) items."""
+    tops = spec.get("tops", [])
+    member = {}
+    for t in tops:
+        for names in t["alts"]:
+            for nm in names:
+                member[nm] = t
+    done = set()
+    for mod in sorted({b["mod"] for b in spec["bodies"]}):
+        for b in spec["bodies"]:
+            if b["mod"] != mod:
+                continue
+            t = member.get(b["name"])
+            if t is None:
+                yield "body", b
+            elif id(t) not in done:
+                done.add(id(t))
+                yield "top", t
+
+
 class Analysis:
     def __init__(self, spec):
         self.spec = spec
@@ -94,8 +117,17 @@ class Analysis:
                     for a, sub in enumerate(s["alts"]):
                         walk(sub, owner, ctx + ((i, a),))
 
-        for b in sorted(spec["bodies"], key=lambda b: b["mod"]):
-            walk_body(b, None, ())
+        for kind_, item in module_items(spec):
+            if kind_ == "body":
+                walk_body(item, None, ())
+            else:  # top-level If/Elif/Else with body definitions inside its alternatives
+                i = next(sid)
+                self.structs[i] = dict(kind="if", s=item, n=len(item["alts"]))
+                self.sid_of[id(item)] = i
+                by_name = {b["name"]: b for b in spec["bodies"]}
+                for a, names in enumerate(item["alts"]):
+                    for nm in names:
+                        walk_body(by_name[nm], None, ((i, a),))
         self.by_owner: dict[str, list[dict]] = {}
         for s in self.sites:
             self.by_owner.setdefault(s["owner"], []).append(s)
@@ -475,9 +507,7 @@ class _Sub(Elaboratable):
                 else:
                     raise AssertionError(t)
 
-        for b in d.spec["bodies"]:
-            if b["mod"] != self.mod:
-                continue
+        def define(b):
             n = b["name"]
             rdy = d.inp[f"rdy:{n}"] if b.get("rdy") else C(1)
             if b.get("rdep"):
@@ -500,6 +530,21 @@ class _Sub(Elaboratable):
             else:
                 with d.obj[n].body(m, ready=rdy):
                     emit(b["stmts"], n)
+
+        by_name = {b["name"]: b for b in d.spec["bodies"]}
+        for kind_, item in module_items(d.spec):
+            if kind_ == "body":
+                if item["mod"] == self.mod:
+                    define(item)
+            elif by_name[item["alts"][0][0]]["mod"] == self.mod:
+                sid = an.sid_of[id(item)]
+                nalt = len(item["alts"])
+                ncond = nalt - (1 if item["else"] else 0)
+                for a, names in enumerate(item["alts"]):
+                    cm = m.If(d.inp[f"c:{sid}:0"]) if a == 0 else (m.Elif(d.inp[f"c:{sid}:{a}"]) if a < ncond else m.Else())
+                    with cm:
+                        for nm in names:
+                            define(by_name[nm])
         return m
 
 
@@ -535,8 +580,14 @@ class Design(Elaboratable):
                     for sub in s["alts"]:
                         collect(sub)
 
-        for b in sorted(spec["bodies"], key=lambda b: b["mod"]):
-            collect(b["stmts"])
+        by_name = {b["name"]: b for b in spec["bodies"]}
+        for kind_, item in module_items(spec):
+            if kind_ == "body":
+                collect(item["stmts"])
+            else:
+                for names in item["alts"]:
+                    for nm in names:
+                        collect(by_name[nm]["stmts"])
         for i, s in enumerate(wit_stmts):
             self.wit_of_stmt[id(s)] = i
             for dom in ("comb", "av_comb", "top_comb"):
@@ -888,6 +939,9 @@ def gen_spec(
     allow_enable=True,
     nonex_rate=3,
     min_trans=1,
+    fsm_rate=1,
+    dup_rels=True,
+    allow_tops=True,
 ):
     nm = draw(st.integers(1, max_methods))
     nt = draw(st.integers(min_trans, max_trans))
@@ -970,7 +1024,7 @@ def gen_spec(
                 nalt = len(pats) + (1 if default else 0)
                 out.append(dict(t="switch", w=w, pats=pats, default=default,
                                 alts=[gen_stmts(owner_idx, depth + 1, allowed, in_nt) for _ in range(nalt)]))
-            elif depth < 2 and k < 18 and allow_fsm:
+            elif depth < 2 and (k < 18 or (k < 17 + fsm_rate)) and allow_fsm:
                 nalt = draw(st.integers(2, 3))
                 out.append(dict(t="fsm", alts=[gen_stmts(owner_idx, depth + 1, allowed, in_nt) for _ in range(nalt)]))
             elif allow_nt and not in_nt and depth < 2 and k < 20:
@@ -983,7 +1037,22 @@ def gen_spec(
     for idx, b in enumerate(bodies):
         allowed = [j for j in range(nm) if (b["kind"] == "T" or (allow_chain and j > idx))]
         b["stmts"] = gen_stmts(idx, 0, allowed, False)
-    spec = dict(sched=schedv, bodies=bodies, rels=[])
+    spec = dict(sched=schedv, bodies=bodies, rels=[], tops=[])
+    if allow_tops:
+        # bodies defined inside the alternatives of a top-level If/Elif/Else of their module
+        for mod in sorted({b["mod"] for b in bodies}):
+            if draw(st.integers(0, 3)) != 0:
+                continue
+            names = [b["name"] for b in bodies if b["mod"] == mod]
+            nalt = draw(st.integers(1, 3))
+            alts = [[] for _ in range(nalt)]
+            for nm in names:
+                where = draw(st.integers(0, nalt + 1))
+                if where < nalt:
+                    alts[where].append(nm)
+            alts = [a for a in alts if a]
+            if alts:
+                spec["tops"].append({"t": "if", "alts": alts, "else": len(alts) > 1 and draw(st.booleans())})
     repair(spec)
     an = analyze(spec)
     top = [b["name"] for b in bodies]
@@ -1007,6 +1076,20 @@ def gen_spec(
                 spec["rels"].pop()
                 if kind == "conf" and p != "U":
                     spec["rels"].append(["conf", a, b2, "U"])
+                    if not relations_ok(spec):
+                        spec["rels"].pop()
+    if allow_rels and dup_rels and spec["rels"] and draw(st.integers(0, 2)) == 0:
+        # a second relation that lifts to a transaction pair already related (e.g. a method-level conflict plus a
+        # transaction-level one with another priority)
+        confs = [r for r in spec["rels"] if r[0] == "conf"]
+        if confs:
+            r0 = draw(st.sampled_from(confs))
+            ta = draw(st.sampled_from(an.reaching_transactions(r0[1])))
+            tb = draw(st.sampled_from(an.reaching_transactions(r0[2])))
+            q = draw(st.sampled_from(["L", "R", "U"]))
+            if ta != tb or allow_same_trans_conf:
+                if an.parent[ta] is None and an.parent[tb] is None:  # relations are declared on top-level bodies
+                    spec["rels"].append(["conf", ta, tb, q])
                     if not relations_ok(spec):
                         spec["rels"].pop()
     if allow_rdep:
